@@ -138,17 +138,24 @@ def late_requests(role, cause, kinds):
     class Sub(DefaultSubscriber):
         def __init__(self, label, fallback=None):
             super().__init__()
-            self.label, self.fallback, self.terminals = label, fallback, []
+            self.label, self.fallback, self.terminals, self.signals = label, fallback, [], []
             subs.append((label, self))
 
+        def on_subscribe(self, subscription):
+            self.signals.append('subscribe')
+            super().on_subscribe(subscription)
+
         def on_next(self, value, is_complete=False):
+            self.signals.append('next')
             if is_complete:
                 self.terminals.append('next-complete')
 
         def on_complete(self):
+            self.signals.append('complete')
             self.terminals.append('complete')
 
         def on_error(self, exception):
+            self.signals.append('error')
             self.terminals.append('error')
             if self.fallback:
                 self.fallback()
@@ -191,9 +198,11 @@ def late_requests(role, cause, kinds):
         loop.run(lambda: asyncio.create_task(ep.close()))
         loop.settle()
         pending = [l for l, f in futs if f is not None and not f.done()]
-        silent = [l for l, sb in subs if len(sb.terminals) != 1]
+        silent = [l for l, sb in subs if len(sb.terminals) != 1 and not (l.endswith(':refused') and not sb.signals)]
+        unsubscribed = [(l, sb.signals) for l, sb in subs if sb.signals and sb.signals[0] != 'subscribe']
         return {'pending': pending, 'terminals_not_one': [(l, sb.terminals) for l, sb in subs if len(sb.terminals) != 1],
-                'issued': [l for l, _ in futs] + [l for l, _ in subs], 'bad': bool(pending or silent)}
+                'first_signal_not_on_subscribe': unsubscribed,
+                'issued': [l for l, _ in futs] + [l for l, _ in subs], 'bad': bool(pending or silent or unsubscribed)}
     finally:
         loop.finish()
 
